@@ -89,8 +89,8 @@ PROPS['C14'] = dict(
 )
 
 PROPS['C09'] = dict(
-    coq_targets=['Proofs/ZobristKeys.vo', 'Proofs/HashSeparation.vo', 'Proofs/ZobristSpan.vo'],
-    prop_files=['C09', 'C09b'],
+    coq_targets=['Proofs/ZobristKeys.vo', 'Proofs/HashSeparation.vo', 'Proofs/ZobristSpan.vo', 'Proofs/ZobristIndep4.vo'],
+    prop_files=['C09', 'C09b', 'C09c'],
     scope='all boards / all builder states paired with each single-component variant; key facts by complete sweeps of the translated Zobrist tables (768 + 8 + 16 + 1 keys); GF(2) span / rank of the 768 piece keys, all 64-bit values',
     streams=lambda tier: [dict(stages=[H('zob', sz(tier, 25, 1500)), D('zob')], shards=16, min_stat={'zob_sib_side': 10, 'zob_sib_rights': 10, 'zob_sib_ep': 5, 'zob_sib_piece': 100})],
     tags=['hash_model', 'oracle_hash_.*', 'zob_line'] + COMMON_MODEL_TAGS,
@@ -258,4 +258,9 @@ PROPS['C13']['ext'] = dict(files=['X13'], targets=['Proofs/Extra13.vo'], tags=['
 PROPS['C20']['ext'] = dict(files=['X20'], targets=['Proofs/Extra20.vo'], tags=['extra_bbdisplay.*'])
 PROPS['C10']['ext'] = dict(files=['X10'], targets=['Proofs/Extra10.vo'], tags=['extra_default.*', 'oracle_extra_default'])
 PROPS['C03']['ext'] = dict(files=['X03'], targets=['Proofs/Extra03.vo'], tags=['extra_edit.*'])
-PROPS['C01']['ext'] = dict(files=['X01'], targets=['Proofs/PerftSpec.vo', 'Proofs/PerftExamples.vo', 'Proofs/PerftBuilder.vo', 'Proofs/PerftGame.vo'], stream='extra2', size=(12, 400), shards=8, tags=['extra2_.*', 'oracle_extra2_.*', 'extra_line'])
+PROPS['C01']['ext'] = dict(files=['X01'], targets=['Proofs/PerftSpec.vo', 'Proofs/PerftExamples.vo', 'Proofs/PerftBuilder.vo', 'Proofs/PerftGame.vo', 'Proofs/PerftPublished.vo'], stream='extra2', size=(12, 400), shards=8, tags=['extra2_.*', 'oracle_extra2_.*', 'extra_line'])
+PROPS['C07']['ext'] = dict(files=['X07', 'X07b'], targets=['Proofs/UnsafeAudit.vo', 'Proofs/AcceptGap.vo', 'Proofs/AcceptGapWitness.vo', 'Proofs/AcceptGapPins.vo'], stream=None, tags=[])
+PROPS['C12']['ext'] = dict(files=['X12'], targets=['Proofs/KnownGames.vo'], stream=None, tags=[])
+PROPS['C17']['ext'] = dict(files=['X17'], targets=['Proofs/PerftMirror.vo'], stream=None, tags=[])
+PROPS['C06']['ext'] = dict(files=['X06'], targets=['Proofs/FenAccepted.vo'], stream=None, tags=[])
+PROPS['C14']['ext'] = dict(files=['X14'], targets=['Proofs/IterOnBoards.vo', 'Proofs/IterOnBoardsExamples.vo'], stream=None, tags=[])
